@@ -138,11 +138,11 @@ ExpectedAuxV(kind, ds, variant) ==
                          IF ks = <<>> THEN <<>> ELSE [i \in 1..Len(ks) |-> IdRow(ks[i])]
       [] kind = "q-s" -> LET ks == KeySeq({k \in Keys : HasBody(ds[k]) /\ ds[k].xa["_s"].t = "x1"}) IN
                          IF ks = <<>> THEN <<>> ELSE [i \in 1..Len(ks) |-> IdRow(ks[i])]
-      [] kind \in {"view", "viewfresh"} -> ViewSeq(ds)
+      [] kind \in {"view", "viewfresh", "viewlate"} -> ViewSeq(ds)
       [] kind = "viewdesc" -> Rev(ViewSeq(ds))
       [] kind = "viewlimit" -> IF ViewSeq(ds) = <<>> THEN <<>> ELSE <<ViewSeq(ds)[1]>>
       [] kind = "viewkey" -> SelSeq(ViewSeq(ds), LAMBDA r : r.vals[1] = "J1" /\ r.vals[2] = "-")
-      [] kind = "ddoc" -> <<[id |-> "vd", body |-> NoBody, xa |-> NoXa, vals |-> <<variant, variant, "1">>]>>   \* GetDDoc, GetDDocs
+      [] kind = "ddoc" -> <<[id |-> "vd", body |-> NoBody, xa |-> NoXa, vals |-> <<variant, variant, "2">>]>>   \* GetDDoc, GetDDocs ("vd" and "ld")
       [] OTHER -> <<>>
 BriefRows(s) == [i \in 1..Len(s) |-> <<s[i].id, BB(s[i].body), s[i].vals, [x \in XNames |-> s[i].xa[x].t]>>]
 CountOKV(rows, ds, variant) ==
@@ -365,11 +365,13 @@ Call(e) ==
                     /\ Fail(IF kd \in {"q-all", "q-v", "q-s"} THEN {"C19"} ELSE {"C12"}, e, <<"aux", kd, c>>,
                             BriefRows(ExpectedAux(kd, newDocs[c])), BriefRows(na[c][kd]))})
                  + F(CountOK(na[c]["viewcount"], newDocs[c]), {"C12"}, <<"aux", "viewcount", c>>, Len(ViewSeq(newDocs[c])), BriefRows(na[c]["viewcount"]))
+        \* a freshly built view, and a view that is queried only every few steps (its index catches up over several
+        \* writes at once): the same rows
         fFresh2 ==
-            Cardinality({i \in 1..Len(e.aux) : e.aux[i].kind = "viewfresh"
+            Cardinality({i \in 1..Len(e.aux) : e.aux[i].kind \in {"viewfresh", "viewlate"}
                 /\ ~(\E k2 \in Keys : BadJson(newDocs[e.aux[i].c][k2]))
-                /\ (e.aux[i].err # "" \/ RowsOf(e.aux[i].rows) # ExpectedAuxV("viewfresh", newDocs[e.aux[i].c], "A"))
-                /\ Fail({"C12"}, e, <<"aux", "viewfresh", e.aux[i].c>>, BriefRows(ExpectedAuxV("viewfresh", newDocs[e.aux[i].c], "A")),
+                /\ (e.aux[i].err # "" \/ RowsOf(e.aux[i].rows) # ExpectedAuxV(e.aux[i].kind, newDocs[e.aux[i].c], "A"))
+                /\ Fail({"C12"}, e, <<"aux", e.aux[i].kind, e.aux[i].c>>, BriefRows(ExpectedAuxV(e.aux[i].kind, newDocs[e.aux[i].c], "A")),
                         IF e.aux[i].err # "" THEN e.aux[i].err ELSE BriefRows(RowsOf(e.aux[i].rows)))})
     IN
     /\ docs' = newDocs
